@@ -366,9 +366,21 @@ impl Sched {
 /// ("after unlock" points): never a branching point.
 const LOCAL_SITES: [&str; 4] = ["write.unlocked", "batch.unlocked", "rotate.unlocked", "thread.exiting"];
 
+/// Optional focus: when set, only sites starting with one of these prefixes (and client-side sites) are scheduling
+/// points; all other hooked sites run through. Used by "focused" bodies to reach higher preemption bounds on the
+/// sites a property is about (the unfocused variant of the same body keeps every site at a lower bound).
+pub static FOCUS: Mutex<Option<Vec<&'static str>>> = Mutex::new(None);
+
 fn h_point(site: &'static str) {
     if LOCAL_SITES.contains(&site) {
         return;
+    }
+    if !site.starts_with("client.") && !site.starts_with("closer.") && !site.starts_with("holder.") {
+        if let Some(f) = FOCUS.lock().unwrap().as_ref() {
+            if !f.iter().any(|p| site.starts_with(p)) {
+                return;
+            }
+        }
     }
     sched().yield_with(Status::AtPoint, site, None);
 }
